@@ -38,6 +38,8 @@ class FieldCase:
         base = dict(self.template)
         if kind == "int":
             base[wire] = 1
+        elif kind == "decimal":
+            base[wire] = 0.5
         elif kind in ("literal", "enum_str"):
             base[wire] = detail["ok"]
         elif kind == "enum_int":
@@ -87,6 +89,8 @@ def field_cases():
             direct = t["kind"] != "or"
             if a["kind"] == "base" and a["name"] in ("integer", "uinteger"):
                 kind, detail = "int", {"lo": 0 if a["name"] == "uinteger" else specmodel.INT_MIN, "hi": specmodel.INT_MAX, "base": a["name"]}
+            elif a["kind"] == "base" and a["name"] == "decimal":
+                kind, detail = "decimal", {}
             elif a["kind"] == "stringLiteral":
                 kind, detail = "literal", {"ok": a["value"]}
             elif a["kind"] == "reference" and a["name"] in SPEC.enums:
@@ -221,19 +225,11 @@ def _wrap_value(v, wrap):
     return v, path
 
 
-_CTX = None
+_CTX = {}
+REMOVED = object()
 
 
-def ctx_cases(max_depth=3):
-    """contexts of every directly integer-typed property: all parents one reference up; chains up to max_depth
-    references up are followed while the chain has not yet crossed a union (that is where hand-written hooks and
-    cattrs' disambiguation decide which class - and so which validators - see the value)"""
-    global _CTX
-    if _CTX is not None:
-        return _CTX
-    L = _lsp()
-    fc = field_cases()
-    ints = [c for c in fc.values() if c.kind == "int" and c.direct]
+def _parents():
     parents = {}  # class name -> [(parent name, wire, wrap)]
     sc_all = classlemmas.spec_classes()
     for name, sc in sc_all.items():
@@ -241,48 +237,169 @@ def ctx_cases(max_depth=3):
             for n, w in _refs(p["type"]):
                 if n in sc_all:
                     parents.setdefault(n, []).append((name, p["name"], w))
+    return parents
+
+
+def _chains(parents, name, depth):
+    """yield lists of (parent, wire, wrap) from the innermost parent outwards"""
+    for par in parents.get(name, []):
+        yield [par]
+        if depth > 1 and "or" not in par[2]:
+            for rest in _chains(parents, par[0], depth - 1):
+                yield [par] + rest
+
+
+def invalid_for_root(root_name, j):
+    """not valid for the root even when undeclared members are tolerated (so no reading of j makes accepting it right)"""
+    props = classlemmas.spec_classes()[root_name]["props"]
+    t = {"kind": "literal", "value": {"properties": [{k: v for k, v in p.items() if k in ("name", "type", "optional")} for p in props]}}
+    old = SPEC.allow_extra
+    SPEC.allow_extra = True
+    try:
+        return not SPEC.valid(t, j)
+    finally:
+        SPEC.allow_extra = old
+
+
+def ctx_cases(kinds=("int",), max_depth=3, unions_only=False, probe=None):
+    """contexts of every directly typed property of the given kinds: all parents one reference up; chains up to
+    max_depth references up are followed while the chain has not yet crossed a union (that is where hand-written hooks
+    and cattrs' disambiguation decide which class - and so which validators - see the value).
+    probe(case) -> an invalid replacement value: contexts where the edited document is still valid for the root under
+    the open reading (a sibling alternative takes it) are dropped."""
+    key = (tuple(kinds), max_depth, unions_only)
+    if key in _CTX:
+        return _CTX[key]
+    L = _lsp()
+    fc = field_cases()
+    cases = [c for c in fc.values() if c.kind in kinds and c.direct and not (c.kind.startswith("enum") and c.detail["open"]) and not c.prop.get("envelope")]
+    parents = _parents()
     out = collections.OrderedDict()
     seen = set()
-
-    def chains(name, depth):
-        """yield lists of (parent, wire, wrap) from the innermost parent outwards"""
-        for par in parents.get(name, []):
-            yield [par]
-            if depth > 1 and "or" not in par[2]:
-                for rest in chains(par[0], depth - 1):
-                    yield [par] + rest
-
-    for c in ints:
-        for chain in chains(c.name, max_depth):
-            if len(chain) > 1 and not any("or" in w for (_, _, w) in chain):
+    prefix = "x" if key == (("int",), 3, False) else "y%d_" % len(_CTX)
+    for c in cases:
+        for chain in _chains(parents, c.name, max_depth):
+            through = any("or" in w for (_, _, w) in chain)
+            if (len(chain) > 1 or unions_only) and not through:
                 continue  # longer chains only to reach a union
-            key = (c.id, tuple((a, b) for a, b, _ in chain))
-            if key in seen:
+            k2 = (c.id, tuple((a, b) for a, b, _ in chain))
+            if k2 in seen:
                 continue
-            seen.add(key)
+            seen.add(k2)
             try:
-                value = dict(c.template)
-                path = [c.wire]
-                for pname, wire, wrap in chain:
-                    wrapped, sub = _wrap_value(value, wrap)
-                    value = dict(classlemmas.SPEC_sample_for(_Case(pname), maximal=False))
-                    value[wire] = wrapped
-                    path = [wire] + sub + path
-                root = chain[-1][0]
-                cls = getattr(L, root, None)
-                if not (isinstance(cls, type) and attrs.has(cls)):
+                built = _build(L, c.template, [c.wire], chain)
+                if built is None:
                     continue
-                label = " <- ".join("%s.%s%s" % (a, b, "".join({"or": "|", "arr": "[]", "map": "{}"}[x] for x in w)) for a, b, w in chain)
-                cid = "x%d" % len(out)
-                cc = CtxCase(cid, c, root, cls, value, path, label, any("or" in w for (_, _, w) in chain))
-                # the context must be sound on a valid value before it is used
-                j = _ctx_json(cc, 1)
-                cc.hook(j, cls)
+                root, cls, value, path, label = built
+                cid = "%s%d" % (prefix, len(out))
+                cc = CtxCase(cid, c, root, cls, value, path, label, through)
+                cc.hook(_ctx_json(cc, c.template[c.wire] if c.wire in c.template else (1 if c.kind == "int" else c.detail["ok"])), cls)  # sound on a valid value
+                if probe is not None and not invalid_for_root(root, _ctx_json(cc, probe(c))):
+                    continue
                 out[cid] = cc
             except Exception as e:
                 PROBLEMS.append(("ctx-case", "%s via %s" % (c.site, chain), "%s: %s" % (type(e).__name__, str(e)[:120])))
-    _CTX = out
+    _CTX[key] = out
     return out
+
+
+def _build(L, inner_template, inner_path, chain):
+    value = dict(inner_template)
+    path = list(inner_path)
+    for pname, wire, wrap in chain:
+        wrapped, sub = _wrap_value(value, wrap)
+        value = dict(classlemmas.SPEC_sample_for(_Case(pname), maximal=False))
+        value[wire] = wrapped
+        path = [wire] + sub + path
+    root = chain[-1][0]
+    cls = getattr(L, root, None)
+    if not (isinstance(cls, type) and attrs.has(cls)):
+        return None
+    label = " <- ".join("%s.%s%s" % (a, b, "".join({"or": "|", "arr": "[]", "map": "{}"}[x] for x in w)) for a, b, w in chain)
+    return root, cls, value, path, label
+
+
+class RemovalCase:
+    """class K reached through a union one to three references up; `wires` = its strictly required properties whose
+    removal leaves a document that is invalid for the root under the open reading"""
+
+    def __init__(self, rid, name, root_name, root_cls, template, path, label, wires):
+        self.id, self.name, self.root_name, self.root_cls, self.template, self.path, self.label, self.wires = rid, name, root_name, root_cls, template, path, label, wires
+        self.hook = real_converter().get_structure_hook(root_cls)
+
+    @property
+    def site(self):
+        return "%s reached as %s" % (self.name, self.label)
+
+
+_REMOVAL = None
+
+
+def removal_cases(max_depth=2):
+    global _REMOVAL
+    if _REMOVAL is not None:
+        return _REMOVAL
+    L = _lsp()
+    parents = _parents()
+    out = collections.OrderedDict()
+    for name, sc in classlemmas.spec_classes().items():
+        req = [p["name"] for p in sc["props"] if classlemmas.p_required(p) and not p.get("envelope") and not p.get("always")]
+        if not req:
+            continue
+        template = classlemmas.SPEC_sample_for(_Case(name), maximal=False)
+        seen = set()
+        for chain in _chains(parents, name, max_depth):
+            if not any("or" in w for (_, _, w) in chain):
+                continue
+            k2 = tuple((a, b) for a, b, _ in chain)
+            if k2 in seen:
+                continue
+            seen.add(k2)
+            try:
+                built = _build(L, template, [], chain)
+                if built is None:
+                    continue
+                root, cls, value, path, label = built
+                rc = RemovalCase("r%d" % len(out), name, root, cls, value, path, label, [])
+                rc.hook(value, cls)  # sound on the valid value
+                rc.wires = [w for w in req if invalid_for_root(root, removal_json(rc, w))]
+                if rc.wires:
+                    out[rc.id] = rc
+            except Exception as e:
+                PROBLEMS.append(("removal-case", "%s via %s" % (name, chain), "%s: %s" % (type(e).__name__, str(e)[:120])))
+    _REMOVAL = out
+    return out
+
+
+def removal_json(rc, wire):
+    def rec(node, i):
+        if i == len(rc.path):
+            node = dict(node)
+            del node[wire]
+            return node
+        k = rc.path[i]
+        node = list(node) if isinstance(node, list) else dict(node)
+        node[k] = rec(node[k], i + 1)
+        return node
+
+    return rec(rc.template, 0)
+
+
+def removal_accepts(rid, k):
+    rc = removal_cases()[rid]
+    try:
+        rc.hook(removal_json(rc, rc.wires[k]), rc.root_cls)
+    except Exception as e:
+        _not_a_verdict(e)
+        return False
+    return True
+
+
+def ctx_lookup(xid):
+    for table in _CTX.values():
+        if xid in table:
+            return table[xid]
+    raise KeyError(xid)
 
 
 def _ctx_json(cc, value):
@@ -301,7 +418,7 @@ def _ctx_json(cc, value):
 
 
 def ctx_accepts(xid, value):
-    cc = ctx_cases()[xid]
+    cc = ctx_lookup(xid)
     try:
         cc.hook(_ctx_json(cc, value), cc.root_cls)
     except Exception as e:
